@@ -171,6 +171,11 @@ pub fn main() -> i32 {
     // `delay t<k> <n>`: thread <k> is not scheduled during the first <n> steps (unless nothing else can
     // run); makes nested deliveries start anywhere inside their host's operation, not just at its start
     let mut delays: Vec<(usize, usize)> = Vec::new();
+    // `holdat t<k> <j> <n>`: once thread <k> has taken <j> steps of its own it is not scheduled again before
+    // global step <n> (unless nothing else can run): parks a delivery between two of its reads while the
+    // mutators go on
+    let mut holds: Vec<(usize, usize, usize)> = Vec::new();
+    let mut own: HashMap<usize, usize> = HashMap::new();
     for l in lines.iter() {
         let w: Vec<&str> = l.split_whitespace().collect();
         match w.as_slice() {
@@ -179,6 +184,7 @@ pub fn main() -> i32 {
             ["maxsteps", n] => maxsteps = n.parse().unwrap(),
             ["schedule", rest @ ..] => replay = Some(rest.iter().map(|x| x.parse().unwrap()).collect()),
             ["delay", t, n] => delays.push((t[1..].parse().unwrap(), n.parse().unwrap())),
+            ["holdat", t, j, n] => holds.push((t[1..].parse().unwrap(), j.parse().unwrap(), n.parse().unwrap())),
             [t, "nested", h, "deliver", sig] => {
                 let k: usize = t[1..].parse().unwrap();
                 let hk: usize = h[1..].parse().unwrap();
@@ -254,10 +260,15 @@ pub fn main() -> i32 {
             if let Some(i) = enabled.iter().position(|&t| g.threads[t].pending.as_ref().map(|p| p.name == "start").unwrap_or(false)) {
                 return i;
             }
-            if replay.is_none() && !delays.is_empty() {
-                let ok: Vec<usize> = (0..enabled.len()).filter(|&i| !delays.iter().any(|&(t, n)| t == enabled[i] && step < n)).collect();
+            if replay.is_none() && (!delays.is_empty() || !holds.is_empty()) {
+                let ok: Vec<usize> = (0..enabled.len()).filter(|&i| {
+                    !delays.iter().any(|&(t, n)| t == enabled[i] && step < n)
+                        && !holds.iter().any(|&(t, j, n)| t == enabled[i] && own.get(&t).copied().unwrap_or(0) == j && step < n)
+                }).collect();
                 if !ok.is_empty() {
-                    return ok[rng.below(ok.len())];
+                    let pick = ok[rng.below(ok.len())];
+                    *own.entry(enabled[pick]).or_insert(0) += 1;
+                    return pick;
                 }
             }
             match &replay {
@@ -269,7 +280,11 @@ pub fn main() -> i32 {
                     if consumes { pos += 1; }
                     idx.unwrap_or(0)
                 }
-                None => rng.below(enabled.len()),
+                None => {
+                    let pick = rng.below(enabled.len());
+                    *own.entry(enabled[pick]).or_insert(0) += 1;
+                    pick
+                }
             }
         },
         maxsteps,
